@@ -1,17 +1,21 @@
 #!/venv/bin/python
-"""Copy round-three sub-agent outputs /tmp/seed3/<P>-<X>/ into /verif/seeded/<P>-<X>/."""
+"""Copy sub-agent outputs <base>/<P>-<X>/ (patch.diff, demo.py, meta.json) into /verif/seeded/<P>-<X>/.
+
+    python tools/ingest_round.py /tmp/seed4 "round four" [ids or properties...]
+"""
 import json, os, shutil, sys
-for d in sorted(os.listdir("/tmp/seed3")):
-    src = os.path.join("/tmp/seed3", d)
+base, label, sel = sys.argv[1], sys.argv[2], sys.argv[3:]
+for d in sorted(os.listdir(base)):
+    src = os.path.join(base, d)
     if d == "prompts" or not os.path.exists(os.path.join(src, "meta.json")):
         continue
-    if sys.argv[1:] and d not in sys.argv[1:] and d.split("-")[0] not in sys.argv[1:]:
+    if sel and d not in sel and d.split("-")[0] not in sel:
         continue
     dst = os.path.join("/verif/seeded", d)
     os.makedirs(dst, exist_ok=True)
     shutil.copy(os.path.join(src, "patch.diff"), os.path.join(dst, "patch.diff"))
     shutil.copy(os.path.join(src, "demo.py"), os.path.join(dst, "demo.py"))
     meta = json.load(open(os.path.join(src, "meta.json")))
-    meta["origin"] = "round three: written by a sub-agent that saw only the property text and one-line summaries of the earlier changes (no access to /verif)"
+    meta["origin"] = "%s: written by a sub-agent that saw only the property text and one-line summaries of the earlier changes (no access to /verif)" % label
     json.dump(meta, open(os.path.join(dst, "meta.json"), "w"), indent=1)
     print("ingested", dst)
